@@ -256,3 +256,36 @@ func ZZ_C16_noPanicRollingUpdateThroughTheSync() {
 	nondet.Assert("C16.rolling-sync.returns", len(c.ERS) == 2)
 	nondet.Reach("C16.rolling-sync.malformed-accepted", accepted && err != nil)
 }
+
+// ZZ_C16_noPanicCanaryNodeUnknownToTheReplicaSetController: the two controllers do not list the same nodes
+// (the ExtendedDaemonSet controller selects canary nodes by the canary node selector, the replica-set
+// controller lists nodes by spec.selector) and a canary node can disappear after it was selected: a name in
+// status.canary.nodes that the replica-set controller cannot resolve must not crash any of the three syncs.
+func ZZ_C16_noPanicCanaryNodeUnknownToTheReplicaSetController() {
+	c, ds, rsNew, rsOld := zzStore(2)
+	ds.Spec.Strategy.Canary = &datadoghqv1alpha1.ExtendedDaemonSetSpecStrategyCanary{}
+	datadoghqv1alpha1.DefaultExtendedDaemonSetSpec(&ds.Spec, datadoghqv1alpha1.ExtendedDaemonSetSpecStrategyCanaryValidationModeAuto)
+	ds.Status.ActiveReplicaSet = rsOld.Name
+	list := []string{"node-unknown", zzNodeName(0)}
+	if nondet.Bool("unknownNodeListedLast") {
+		list = []string{zzNodeName(0), "node-unknown"}
+	}
+	ds.Status.Canary = &datadoghqv1alpha1.ExtendedDaemonSetStatusCanary{ReplicaSet: rsNew.Name, Nodes: list}
+	c.Pods = append(c.Pods, zzPod("active-1", zzNodeName(1), rsOld.Name, zzHashOld, 0, corev1.PodRunning, true, nondet.Base().Add(-3600*1e9)))
+	if nondet.Bool("canaryPodExists") {
+		c.Pods = append(c.Pods, zzPod("canary-0", zzNodeName(0), rsNew.Name, zzHashNew, 0, corev1.PodRunning, true, nondet.Base().Add(-60*1e9)))
+	}
+	third := zzRS("foo-left", "hash-left")
+	c.ERS = append(c.ERS, third)
+	which := rsNew.Name
+	switch nondet.String("synced", "canary", "active", "leftover") {
+	case "active":
+		which = rsOld.Name
+	case "leftover":
+		which = third.Name
+	}
+	_, err := zzReconcile(zzReconciler(c, false), zzNS, which)
+	nondet.Observe("error", err != nil)
+	nondet.Assert("C16.unknown-canary-node.other-node-untouched", c.Count("delete", "Pod") == 0)
+	nondet.Reach("C16.unknown-canary-node.canary-synced", which == rsNew.Name)
+}
